@@ -62,7 +62,7 @@ def main(tier, seed):
         'core_nl_format': 'text' if tier == 'quick' else 'text for every core model; binary and text+comments for every core model '
                           'with n<=2 and, for n=3, on the 60 reduced supports',
         'rows': '0..2, every 0/nonzero pattern', 'row_kinds': ['free', '<=', '>=', 'range', '=='],
-        'objective_support': 'all subsets + nullptr', 'sense': ['min', 'max'], 'offset': [0, 1.5],
+        'objective_support': 'all subsets + nullptr', 'sense': ['min', 'max'], 'offset': [0, 1.5, -7.5],
         'warm_start': 'all subsets', 'dual_warm_start': 'all subsets',
         'suffixes': 'var/con/obj/problem x int/real, each present/absent', 'names': ['absent', 'present'],
         'nl_format': ['binary', 'text', 'text+comments'], 'pairwise_deviation_bound': 2,
